@@ -4,9 +4,46 @@ from __future__ import annotations
 
 import random
 
+import cfcommon as cf
 import idcommon as ic
 import trcommon as tc
 from common import seed
+
+
+def _splits(ev):
+    n = len(ev)
+    for mask in range(1, 2 ** n - 1):
+        yield [ev[i] for i in range(n) if not mask >> i & 1], [ev[i] for i in range(n) if mask >> i & 1]
+
+
+def star_parts(wd, tier):
+    """ID* / IDC* estimands contain single-world terms only.  Nothing is evaluated here (TV kind svocab), so the family
+    is wider than the semantic families of C07 / C08: every single atom and a slice of the pairs and three-world triples on
+    the 3-node ADMGs, and two-atom events (one subscript each, possibly in different worlds) on seeded 4-node ADMGs."""
+    rng = random.Random(661 + seed())
+    items, g = cf.event_family(wd, tier, pairs_step=7, three_world=8 if tier == "quick" else 40)
+    g4 = cf.gen(wd, "A4o", 4, 2, 2, False)[0]
+    p4 = [e for e in g4["events"] if len(e) == 2]
+    ng, ne = (160, 80) if tier == "quick" else (1500, 200)
+    for k, gr in enumerate(rng.sample(g4["graphs"], ng)):
+        items.append({"g": gr, "gid": f"A4-{k}", "evs": rng.sample(p4, ne), "triples": []})
+    citems = []
+    for it in items:
+        evs = []
+        for e in it["evs"]:
+            if len(e) >= 2:
+                sp = list(_splits(e))
+                evs.append(sp[len(evs) % len(sp)])
+        citems.append(dict(it, evs=evs))
+    for mode, its, name in (("star", items, "idstar"), ("cstar", citems, "idcstar")):
+        groups = cf.run_y0(wd, mode, its, "c06" + mode)
+        groups = [dict(gr, recs=[dict(r, k="svocab") for r in gr["recs"]]) for gr in groups]
+        vs, st, by_id = ic.judge(wd, groups, seeds=(1,), tag="tv" + mode)
+        if mode == "star":
+            st["distinct"] += g["distinct"] + g4["distinct"]
+            st["generated"] += g["generated"] + g4["generated"]
+        n = sum(1 for rid in vs if by_id[rid][1]["out"]["k"] == "expr")
+        yield name, vs, by_id, None, st, {name: n}
 
 
 def parts(wd, tier):
@@ -19,3 +56,4 @@ def parts(wd, tier):
     st["generated"] += sum(g["generated"] for g in gens)
     n = sum(1 for rid, v in vs.items() if by_id[rid][1]["out"]["k"] == "expr")
     yield "transport", vs, by_id, None, st, {"trso": n}
+    yield from star_parts(wd, tier)
